@@ -414,6 +414,10 @@ func shapeMN() [][2]int {
 	// emit.Int switches from PUSH<n> to PUSHINT8 at 16
 	// (at most 15 signatures fit into an invocation script of 1024 bytes)
 	out = append(out, [2]int{1, 15}, [2]int{15, 15}, [2]int{1, 16}, [2]int{15, 16}, [2]int{1, 17}, [2]int{15, 17})
+	// above 17 keys: the pushed key count is well inside PUSHINT8 (a calculator that
+	// derives the opcode arithmetically from PUSH1 is only right up to 16); 29 keys
+	// are the most a verification script of 1024 bytes can hold
+	out = append(out, [2]int{1, 18}, [2]int{2, 19}, [2]int{1, 24}, [2]int{1, 29}, [2]int{15, 29})
 	return out
 }
 
